@@ -116,6 +116,23 @@ def _name(ss, lid):
     return Ref.ROOT if ss.id == '*ROOT*' else int(ss.id[len(lid) + 1:])
 
 
+def _cycle_bound(ref):
+    """nodes that lie on a directed cycle of length >= 2 or whose hypernym chains reach one"""
+    adj = ref.adj
+
+    def reach(i):
+        seen, todo = set(), list(adj.get(i, ()))
+        while todo:
+            j = todo.pop()
+            if j not in seen:
+                seen.add(j)
+                todo.extend(adj.get(j, ()))
+        return seen
+    r = {i: reach(i) for i in range(ref.n)}
+    on_cycle = {i for i in r if i in r[i]}
+    return {i for i in r if i in on_cycle or r[i] & on_cycle}
+
+
 def _discover(ss, lid):
     """expanded mode: add the placeholder synsets that navigation from the real ones reaches"""
     todo = list(ss.values())
@@ -221,7 +238,14 @@ def check_graph(lid, g, edges, hypo):
             exp = max((ref.max_depth(i) for i in members), default=0)
             obs.append(('td', p, v if ok else repr(v)))
             if not ok or v != exp:
-                if ok and not ref.dag and v < exp:
+                # the recorded finding: with a directed cycle (length >= 2) the 'all hypernyms seen' pruning skips
+                # synsets whose own chains through or around the cycle are longer. Accepted only as an
+                # under-report explained by synsets that lie on or reach such a cycle: the value must still
+                # cover every other member (self-loops alone, or a cycle elsewhere in the graph, excuse nothing).
+                cyc = _cycle_bound(ref)
+                touched = [i for i in members if i in cyc]
+                floor = max((ref.max_depth(i) for i in members if i not in cyc), default=0)
+                if ok and touched and floor <= v < exp:
                     bad(K_CYCLIC_TD, f'taxonomy_depth({p}) = {v} expected {exp}')
                 else:
                     bad('taxonomy_depth:differs', f'taxonomy_depth({p}) = {v!r} expected {exp}')
